@@ -150,7 +150,7 @@ func run(c *core.Ctx) {
 	}
 	r := c.Rng("soup")
 	atoms := []string{"a", "B", "0", "9", "-", "_", "\n", "\x00", " ", "é", "٣", "́", "\xff", ".", ":", "<", "\"", "ab", "id"}
-	for i := 0; i < c.N(20000, 500000)/c.NShards; i++ {
+	for i := 0; i < c.N(300000, 3000000)/c.NShards; i++ {
 		s := gen.Soup(r, atoms, r.Intn(8))
 		checkConst(c, s)
 		checkPrefix(c, gen.Soup(r, atoms[:6], 1+r.Intn(3)), s)
